@@ -71,6 +71,9 @@ def do_run(ids, all_checks, tier):
         d = os.path.join(SEEDED, sid)
         meta = json.load(open(os.path.join(d, "meta.json")))
         prop = meta["property"]
+        if meta.get("not_claimed"):
+            print("%s target=%s NOT-CLAIMED (skipped): outside the property as stated, see meta.json" % (sid, prop))
+            continue
         if meta.get("obsolete"):
             print("%s target=%s OBSOLETE (skipped): edited lines removed by a later fix: commit" % (sid, prop))
             continue
